@@ -946,6 +946,52 @@ func (fv *FuncVerifier) callContract(st *State, e *ast.CallExpr, fn *types.Func,
 	if len(errs) > 0 {
 		fv.unsupported("spec errors at call " + text + ": " + strings.Join(errs, "; "))
 	}
+	// callback parameter: the callee applies the given local closure to an arbitrary number of rows;
+	// modelled as a loop (ordinal as any other loop) whose body is the inlined closure on an arbitrary row
+	if cb := c.Flags["callback"]; cb != "" {
+		for i, nm := range names {
+			if nm != cb || i >= len(e.Args) {
+				continue
+			}
+			id, ok := unparen(e.Args[i]).(*ast.Ident)
+			if !ok {
+				fv.note("callback argument of " + c.Key + " is not a local closure: its effects are not modelled")
+				continue
+			}
+			o, _ := fv.info().ObjectOf(id).(*types.Var)
+			lit := fv.closures[o]
+			if lit == nil {
+				fv.note("callback argument of " + c.Key + " is not a local closure: its effects are not modelled")
+				continue
+			}
+			lsig := fv.typeOf(lit).(*types.Signature)
+			rowReq := c.Flags["callbackrow"]
+			ord := fv.nextLoopOrd()
+			lp := &loopParts{ord: ord, pos: e.Pos()}
+			lp.cond = func(st *State) string { return fv.fresh("more", "Bool") }
+			lp.body = func(st *State) {
+				var argv []Val
+				for k := 0; k < lsig.Params().Len(); k++ {
+					v := fv.havocVal(st, "row", lsig.Params().At(k).Type())
+					for _, r := range fv.refTerms(v.T, lsig.Params().At(k).Type(), 0) {
+						fv.assume(st, "(< "+r+" "+st.alloc+")")
+					}
+					argv = append(argv, v)
+				}
+				if rowReq != "" && len(argv) > 0 {
+					if ex, err := parseSpecExpr(rowReq); err == nil {
+						var es []string
+						env := fv.ownEnv(st, &es)
+						env.vars["row"] = argv[0]
+						fv.assume(st, env.eval(ex).T)
+					}
+				}
+				fv.inlineClosureVals(st, lit, lsig, argv)
+			}
+			lp.post = func(st *State) {}
+			fv.execLoop(st, lp)
+		}
+	}
 	return out
 }
 
